@@ -3,6 +3,8 @@ import ZCV.Model.Subst
 import ZCV.Spec.Subst
 import ZCV.Codec
 import ZCV.Model.Conv
+import ZCV.Model.Schemaless
+import ZCV.Spec.Grammar
 /-! Line-protocol driver: one request per line, one answer per line. Imports Spec + Model + Gen only. -/
 open ZCV ZCV.SExp ZCV.Codec ZCV.Cfg
 
@@ -20,6 +22,34 @@ def specErr : SubstSpec.Err → SExp
 def exc {ε} (f : ε → SExp) : Except ε Str → SExp
   | .ok v => .list [.atom "ok", .str v]
   | .error e => .list [.atom "err", f e]
+
+def encLineShape : LineShape → SExp
+  | .skip => .atom "skip"
+  | .open_ t n e => .list [.atom "open", .str t, ofOpt .str n, ofBool e]
+  | .close t => .list [.atom "close", .str t]
+  | .define a => .list [.atom "define", .str a]
+  | .import_ a => .list [.atom "import", .str a]
+  | .include_ a => .list [.atom "include", .str a]
+  | .kv k v => .list [.atom "kv", .str k, .str v]
+  | .bad _ => .atom "bad"
+  | .internal e => .list [.atom "internal", .atom e]
+def encShape : Grammar.Shape → SExp
+  | .skip => .atom "skip"
+  | .open_ t n e => .list [.atom "open", .str t, ofOpt .str n, ofBool e]
+  | .close t => .list [.atom "close", .str t]
+  | .define a => .list [.atom "define", .str a]
+  | .import_ a => .list [.atom "import", .str a]
+  | .include_ a => .list [.atom "include", .str a]
+  | .kv k v => .list [.atom "kv", .str k, .str v]
+  | .bad => .atom "bad"
+def encEv : Ev → SExp
+  | .start t n => .list [.atom "start", .str t, ofOpt .str n]
+  | .stop t n => .list [.atom "stop", .str t, ofOpt .str n]
+  | .value k v l => .list [.atom "value", .str k, .str v, ofInt l]
+  | .imp p => .list [.atom "imp", .str p]
+partial def encSec : Sec → SExp
+  | .mk t n kvs ss => .list [.atom "sec", .str t, ofOpt .str n,
+      .list (kvs.map fun (k, vs) => .list [.str k, ofStrs vs]), .list (ss.map encSec)]
 
 structure DState where
   defs : List SExp := []
@@ -54,6 +84,23 @@ def handle (st : DState) : SExp → DState × SExp
       | .error .valueError => .list [.atom "err", .atom "ValueError"]
       | .error .typeError => .list [.atom "err", .atom "TypeError"]
       | .error (.other n) => .list [.atom "err", .str n])
+  -- (classify "line") → (model-shape spec-shape)
+  | .list [.atom "classify", .str l] =>
+    (st, .list [encLineShape (lineShape (strip l)), encShape (Grammar.classify l)])
+  -- (parse-rec url (lines…)) → (ok events) | failure
+  | .list [.atom "parse-rec", url, .list lines] =>
+    (st, match lines.mapM getStr? with
+      | some ls => (match recParse (assocFn st.env) (optStr url) ls with
+        | .ok evs => .list [.atom "ok", .list (evs.map encEv)]
+        | .error f => encFail f)
+      | none => .list [.atom "bad-request"])
+  -- (schemaless url (lines…)) → (ok tree imports "str") | failure
+  | .list [.atom "schemaless", url, .list lines] =>
+    (st, match lines.mapM getStr? with
+      | some ls => (match slLoad (assocFn st.env) (optStr url) ls with
+        | .ok (top, imps) => .list [.atom "ok", encSec top, ofStrs imps, .str (slStr top imps)]
+        | .error f => encFail f)
+      | none => .list [.atom "bad-request"])
   | .list [.atom "ping"] => (st, .atom "pong")
   | _ => (st, .list [.atom "bad-request"])
 
